@@ -249,6 +249,12 @@ def _misc_op(cfg, k, v):
       fdl.update_callable(cfg, fam.g0)
     else:
       fdl.update_callable(cfg, two, drop_invalid_args=True)
+  elif k == 11:
+    # an edit made by a helper thread that has finished (joined) before the next operation: program order across threads
+    import threading
+    th = threading.Thread(target=lambda: setattr(cfg, 'y', 77))
+    th.start()
+    th.join()
   else:
     del cfg.x
   return cfg
@@ -257,7 +263,7 @@ def _misc_op(cfg, k, v):
 def c16_misc(k0: int, k1: int, k2: int, v: int, sus: int) -> bool:
   """
   Tag edits, update_callable, materialize_defaults, assign, copy_with, tagged assignment, deletion.
-  require: 0 <= k0 <= 10 and 0 <= k1 <= 10 and 0 <= k2 <= 10 and 0 <= sus <= 3
+  require: 0 <= k0 <= 11 and 0 <= k1 <= 11 and 0 <= k2 <= 11 and 0 <= sus <= 3
   """
   cfg = fdl.Config(fam.g0, x=1)
   other = fdl.Config(fam.g1, y=2)
@@ -274,12 +280,13 @@ def c16_misc(k0: int, k1: int, k2: int, v: int, sus: int) -> bool:
       with history.suspend_tracking():
         new = _misc_op(cfg, k, v)
       suspended_any = True
-      if new is cfg and _entries(cfg) != before_hist:
-        return False
+      if new is cfg and k != 11 and _entries(cfg) != before_hist:
+        return False                       # (suspension is per thread: the helper thread of op 11 still records)
     else:
       new = _misc_op(cfg, k, v)
     if not history.tracking_enabled():
       return False
+    new_is_same = new is cfg
     if new is not cfg:
       # copy_with: the original's history is untouched, the copy's ends with its current state
       if _entries(cfg) != before_hist:
@@ -295,9 +302,27 @@ def c16_misc(k0: int, k1: int, k2: int, v: int, sus: int) -> bool:
         return False
       if not all(_loc_ok(e) for e in v_):
         return False
-    if sus == i + 1 and new is cfg and new_ids:
+    if sus == i + 1 and new is cfg and k != 11 and new_ids:
       return False
     other.y = i
+    # program order across configurations (and across threads that have finished): every entry written by this step
+    # carries a sequence number above everything that existed before the step, and no number occurs twice (entries
+    # that a copy shares with its original are the same objects and count once)
+    uniq = {}
+    for c in (cfg, other):
+      for v_ in c.__argument_history__.values():
+        for e in v_:
+          uniq[id(e)] = e.sequence_id
+    after_ids = list(uniq.values())
+    if len(set(after_ids)) != len(after_ids):
+      return False
+    if new_is_same:
+      fresh = list(after_ids)
+      for old_id in set(ids):
+        if old_id in fresh:
+          fresh.remove(old_id)
+      if any(n <= max_before for n in fresh):
+        return False
   note('c16m', k0, k1, k2, sus)
   cleared = serialization.clear_argument_history(cfg)
   return cfg == cleared and canon(cfg) == canon(cleared)
@@ -330,13 +355,13 @@ def obligations(tier, seed):
   smoke.pop('er', None)
   smoke['sig'] = core[0]
   mcubes = [Cube(f'k{a}_{b}_s{s}', [], dict(k0=a, k1=b, sus=s), est=10)
-            for a in range(11) for b in range(11) for s in ((a + b) % 4,)]
+            for a in range(12) for b in range(12) for s in ((a + b) % 4,)]
   if tier != 'quick':
     mcubes = [Cube(f'k{a}_{b}_s{s}', [], dict(k0=a, k1=b, sus=s), est=10)
-              for a in range(11) for b in range(11) for s in range(4)]
+              for a in range(12) for b in range(12) for s in range(4)]
   return [
       Obligation('c16_ops2', c16_ops2, cubes, timeout=t, path_timeout=30, smoke=dict(smoke, sus=0),
                  extra_smokes=[dict(smoke, sus=s) for s in (1, 2, 3, 4)]),
       Obligation('c16_misc', c16_misc, mcubes, timeout=t, path_timeout=30, smoke=dict(k0=0, k1=7, k2=5, v=3, sus=0),
-                 extra_smokes=[dict(k0=a, k1=(a + 3) % 11, k2=(a + 6) % 11, v=3, sus=a % 4) for a in range(11)] + [dict(k0=6, k1=10, k2=10, v=3, sus=0)]),
+                 extra_smokes=[dict(k0=a, k1=(a + 3) % 12, k2=(a + 6) % 12, v=3, sus=a % 4) for a in range(12)] + [dict(k0=6, k1=10, k2=10, v=3, sus=0)]),
   ]
